@@ -67,6 +67,8 @@ def mutate(ctx, prot, unprot, rhdr, positions, names):
         return f"{name}:={v!r} ({pos})"
     if kind == "delete":
         present = [n for d in (prot, unprot or {}, rhdr or {}) for n in d]
+        if not present:
+            return "nothing left to delete"
         name = ctx.choose("name", present)
         for d in (prot, unprot, rhdr):
             if d is not None:
